@@ -45,7 +45,7 @@ Expected(e) ==
       [] e.verb = "alias"      -> CmAlias(M)
       [] e.verb = "collect"    -> CmCollect(M, a.keep)
       [] e.verb \in {"join", "inner_join", "left_join", "full_join", "cross_join"}
-                               -> CmJoin(M, Tab(e.in2), a.ron, a.rname, a.suffix)
+                               -> CmJoin(M, Tab(e.in2), a.ron, a.rname, a.suffix, a.how)
       [] e.verb = "union"      -> CmUnion(M, Tab(e.in2))
       [] OTHER -> M
 
